@@ -694,31 +694,84 @@ def suite_grid_node_number(ctx, Grid, rng, ncases):
                          {"space_seq": enc_ratmat(X), "x": enc_rats(q), "observed": ans,
                           "squared_distances": enc_rats(s2)})
     ctx.correspond("Lean gridNodeNumber (Rat) == Grid.node_number", reqs, impl)
-    # implementation-only stream: generic float coordinates / queries (decisions not exact, so
-    # no model comparison): the returned node is at minimal float64 distance up to 1e-12
+    # round 5 — generic float coordinates / queries.  Theorem gridNodeNumber_rounded: under the
+    # standard model (u = 2^-53 for float64 queries, 2^-24 for float32 query arrays, correctly
+    # rounded square root) the node returned satisfies, for every node m,
+    #     (1-u)^(d+5) * |x_k - q|^2  <=  (1+u)^(d+5) * |x_m - q|^2        (squared form, w = u)
+    # The oracle checks exactly that in Fractions (it replaces the former ad-hoc 1e-12), on
+    # queries that include near-ties (points within 2^-60 .. 2^-20 relative of a bisector), and
+    # the Lean model evaluated in IEEE double / single arithmetic in the order of the source
+    # must take the same decision (requests gridnnf / gridnnf32).
+    freqs, fimpl = [], []
+    flipped = 0
     for c in range(ncases // 2):
         cur = {}
-        with ImplGuard(ctx, "Grid.node_number:float-stream", cur, []):
-            n = rng.choice([2, 5, 9, 20])
+        with ImplGuard(ctx, "Grid.node_number:float-stream", cur, [freqs, fimpl]):
+            n = rng.choice([2, 3, 5, 9, 20])
             d = rng.choice([1, 2, 3, 4, 5])
-            X = np.array([[f32(rng.uniform(-10, 10)) for _ in range(n)] for _ in range(d)])
+            scale = 2.0 ** rng.choice([0, 0, 0, -8, 10])
+            X = np.array([[f32(rng.uniform(-10, 10) * scale) for _ in range(n)]
+                          for _ in range(d)], dtype=np.float64)
+            if n >= 3 and rng.random() < 0.2:
+                X[:, 1] = X[:, 0]                      # coincident nodes: exact tie
+            qk = rng.choice(["near-node", "bisector", "bisector", "random", "at-node"])
             j = rng.randrange(n)
-            q = [float(X[k, j]) + rng.choice([0.0, rng.uniform(-1, 1), rng.uniform(-1e-3, 1e-3)])
-                 for k in range(d)]
-            cur.update(space_seq=X, x=q)
+            if qk == "near-node":
+                q = [float(X[k, j]) + scale * rng.choice([rng.uniform(-1, 1),
+                                                           rng.uniform(-1e-3, 1e-3)])
+                     for k in range(d)]
+            elif qk == "at-node":
+                q = [float(X[k, j]) for k in range(d)]
+            elif qk == "bisector":
+                j2 = rng.randrange(n)
+                eps = rng.choice([0.0, 2.0 ** -60, 2.0 ** -50, 2.0 ** -45, 2.0 ** -30, 2.0 ** -20])
+                q = [(float(X[k, j]) + float(X[k, j2])) / 2 * (1 + rng.choice([-1, 1]) * eps)
+                     for k in range(d)]
+                if d >= 2 and rng.random() < 0.5:      # slide along the bisector (2 coordinates)
+                    a, b = rng.sample(range(d), 2)
+                    va, vb = float(X[a, j] - X[a, j2]), float(X[b, j] - X[b, j2])
+                    t = rng.uniform(-1, 1)
+                    q[a] += t * vb
+                    q[b] -= t * va
+            else:
+                q = [rng.uniform(-12, 12) * scale for _ in range(d)]
+            qc = rng.choice(["tuple", "f64", "f32", "f32", "list"])
+            if qc == "f32":
+                q = [f32(v) for v in q]
+                qx, u, tag = np.array(q, dtype=np.float32), Fr(1, 2 ** 24), "gridnnf32"
+            else:
+                qx = {"tuple": tuple(q), "list": list(q), "f64": np.array(q)}[qc]
+                u, tag = Fr(1, 2 ** 53), "gridnnf"
+            cur.update(space_seq=X, x=q, x_as=qc)
             g = Grid(np.arange(2), X.reshape(d, n), silence_level=3)
-            dist = [math.sqrt(math.fsum((float(X[k, i]) - q[k]) ** 2 for k in range(d)))
-                    for i in range(n)]
+            s2 = [sum((Fr(float(X[k, i])) - Fr(q[k])) ** 2 for k in range(d)) for i in range(n)]
             try:
-                got = int(g.node_number(tuple(q)))
+                got = int(g.node_number(qx))
+                ans = str(got)
             except Exception as e:  # noqa
-                got = None
-            ctx.count("grid-node_number:float-stream")
-            ctx.case(("gnf", X.tobytes().hex(), tuple(q)), True)
-            if got is None or not (0 <= got < n) or dist[got] > min(dist) * (1 + 1e-12) + 1e-300:
+                got, ans = None, "raise:" + type(e).__name__
+            ctx.count(f"grid-node_number:float-stream:x-as={qc}")
+            ctx.count(f"grid-node_number:float-stream:query={qk}")
+            ctx.case(("gnf", X.tobytes().hex(), tuple(q), qc), True)
+            freqs.append(f"{tag} {d} {n} {enc_ratmat(X.tolist())} {enc_rats(q)}")
+            fimpl.append(ans)
+            lo, hi = (1 - u) ** (d + 5), (1 + u) ** (d + 5)
+            ok = got is not None and 0 <= got < n and lo * s2[got] <= hi * min(s2)
+            if ok and s2[got] != min(s2):
+                flipped += 1
+            if ok and sum(1 for v in s2 if lo * v <= hi * min(s2)) > 1:
+                ctx.count("grid-node_number:float-stream:near-tie-within-rounding-factor")
+            if not ok:
                 ctx.fail({"kind": "lookup", "class": "Grid", "method": "node_number"},
-                         "Grid.node_number does not return a node at minimal distance",
-                         {"space_seq": X.tolist(), "x": q, "observed": got, "distances": dist})
+                         "Grid.node_number does not return a node at minimal distance (up to the "
+                         "rounding factor of theorem gridNodeNumber_rounded)",
+                         {"space_seq": X.tolist(), "x": q, "x_as": qc, "observed": ans,
+                          "squared_distances": [float(v) for v in s2]})
+    ctx.extra["grid_node_number_float"] = {
+        "cases": len(freqs), "rounding_changed_the_exact_argmin": flipped,
+        "bound": "(1-u)^(d+5) s2[k] <= (1+u)^(d+5) min s2, u = 2^-53 (float64) / 2^-24 (float32)"}
+    ctx.correspond("Lean gridNodeNumber in IEEE Float / Float32 (source order) == Grid.node_number "
+                   "on float queries incl. near-ties", freqs, fimpl)
 
 
 # --------------------------------------------------------------------------
